@@ -12,7 +12,7 @@ import re
 import sys
 import warnings
 
-from . import interpose, simpool
+from . import interpose, simpool, simsync
 
 interpose.install_global()  # before the code under test is imported anywhere (it may bind datetime/time names)
 from .clock import SimClock, EPOCH0
@@ -301,6 +301,7 @@ class World:
         if record_mut_trace:
             self.director.mut_trace = []
         self.sched = Sched(self.director, step_cap=k.get("step_cap", 60_000), log_events=keep_log)
+        self.sched.clock = self.clock
         self.fs = SimFS(self.clock, self.sched, atime_policy=k.get("atime", "relatime"),
                         listing=k.get("listing", "sorted"), rng=random.Random(mix(record["seed"], "fs")),
                         buffer_size=k.get("bufsize", 8192))
@@ -372,12 +373,13 @@ class World:
         threading.Thread = simpool.SimThread
         fc._ACTIVE_FILE_CACHES.clear()
         self._dt_saved = [(m, interpose.patch_datetime_in(m)) for m in (co, rr, fc)]
+        self._sync_saved = [(m, simsync.patch_sync_in(m, self._saved["cf"][4])) for m in (co, rr, fc)]
         self.sim_resource = build_sim_resource(self)
         self.chain_resource = build_sim_resource(self, prefix="chain://", chained=True)
         self.private_resource = build_sim_resource(self, prefix="sim://", private=True)
 
     def _unpatch_modules(self):
-        for m, saved in self._dt_saved:
+        for m, saved in self._dt_saved + self._sync_saved:
             for name, val in saved:
                 setattr(m, name, val)
         self.co.ThreadPool = self._saved["ThreadPool"]
@@ -390,6 +392,11 @@ class World:
         mpp.ThreadPool = self._saved["mpp.ThreadPool"]
         cf.ThreadPoolExecutor, cft.ThreadPoolExecutor, cf.as_completed, cf.wait, threading.Thread = self._saved["cf"]
         self.fc._ACTIVE_FILE_CACHES.clear()
+
+    def _new_process_state(self):
+        """module-level state of the code under test (registries, locks) does not survive a process"""
+        for m in (self.co, self.rr, self.fc):
+            simsync.reset_module_state(m)
 
     def _resources(self):
         # the private store comes first and shares the sim:// prefix; it claims only sim://private/...
@@ -586,7 +593,11 @@ class World:
         drop = None
         if kind == "HTTP_DROP_MID":
             drop = fault.get("k", 1)  # the connection breaks after this many pieces of the body
-        return FakeResponse(url, status, body, self, drop_after=drop)
+        # a server that compresses on the fly does so whenever the client accepts it (requests always offers
+        # gzip unless the caller overrides Accept-Encoding) and the object is compressible text (here: odd names)
+        accept = (kwargs.get("headers") or {}).get("Accept-Encoding", "gzip, deflate")
+        gz = bool(self.knobs.get("http_gzip")) and "gzip" in accept and status == 200
+        return FakeResponse(url, status, body, self, drop_after=drop, gzip_encoded=gz)
 
     def _pp(self, filepath):
         key = self._attribute_key(filepath, None)
@@ -978,6 +989,7 @@ class World:
             simpool.forget_pools()
             self.cache = None
             self.fc._ACTIVE_FILE_CACHES.clear()
+            self._new_process_state()
             self.incarnation += 1
             interpose._STATE["incarnation"] = self.incarnation
             obs.crash_info = d.crash_fired
@@ -1044,6 +1056,7 @@ class World:
                     self.sched.new_epoch()
                     simpool.forget_pools()
                 self.cache = None
+                self._new_process_state()
             size = op.get("size")
             if size is None:
                 size = k["max_bytes"]
